@@ -14,6 +14,7 @@
 (*    latitudes   deg90   degrees in [-90, 90], right parallel             *)
 (*    x, y, z     unit    component of the unit vector of the position     *)
 (*                raw     right direction, length of the source (not 1)    *)
+(*                scaled  right direction, some other length               *)
 (*                degrad  unit length, but computed from degrees that      *)
 (*                        were read as radians (wrong direction)           *)
 (*    any         bad     anything else (wrong place, out of range, NaN)   *)
@@ -66,7 +67,7 @@ LonInRange  == \A v \in Var : (IsLon(v) /\ Has(store, v)) => store[v] = "deg180"
 LatInRange  == \A v \in Var : (IsLat(v) /\ Has(store, v)) => store[v] = "deg90"
 SamePoint   == \A v \in Var : (IsCart(v) /\ Has(store, v)) => DirOk(store[v])
 DerivedUnit == \A v \in Var : (IsCart(v) /\ Has(store, v) /\ ~SuppliedVar(src, v)) => store[v] = "unit"
-NormalizedIsUnit == nrmRan => \A v \in Var : (IsCart(v) /\ Has(store, v)) => store[v] # "raw"
+NormalizedIsUnit == nrmRan => \A v \in Var : (IsCart(v) /\ Has(store, v)) => store[v] \notin {"raw", "scaled"}
 SuppliedKept == \A v \in Var : SuppliedVar(src, v) => Has(store, v)
 \* observation = function of the source: every present variable carries exactly the tag the
 \* source (and normalisation) determines
